@@ -1058,11 +1058,14 @@ func (store *KeyStore) destroyKeyWithFilename(filename string) error {
 	// Remove key files. It's okay if they are already removed (or never existed).
 	// Keystore v1 does not differentiate between 'destroying' and 'removing' keys
 	// because multiple functinons depend on the key file to be absent, not empty.
-	err := store.fs.Remove(store.GetPrivateKeyFilePath(filename))
+	// The public key goes first: if we are interrupted between the two removals the keystore must
+	// not keep handing out a public key for encryption whose private key is already gone
+	// (nothing encrypted with it could ever be decrypted).
+	err := store.fs.Remove(store.GetPublicKeyFilePath(filename + ".pub"))
 	if err != nil && !os.IsNotExist(err) {
 		return err
 	}
-	err = store.fs.Remove(store.GetPublicKeyFilePath(filename + ".pub"))
+	err = store.fs.Remove(store.GetPrivateKeyFilePath(filename))
 	if err != nil && !os.IsNotExist(err) {
 		return err
 	}
